@@ -425,7 +425,7 @@ func checkAssertsSatisfiable(r *core.Run, rule string, fn *ssa.Function) {
 			if _, isIface := ta.AssertedType.Underlying().(*types.Interface); isIface {
 				continue
 			}
-			key := core.FuncName(fn) + ": " + core.Expr(ta.X) + ".(" + core.TypeStr(ta.AssertedType) + ")"
+			key := core.FuncName(fn) + ": " + core.KExpr(ta.X) + ".(" + core.TypeStr(ta.AssertedType) + ")"
 			sat := u["*|"+types.TypeString(ta.AssertedType, nil)]
 			if n, ok := ta.X.Type().(*types.Named); ok && n.Obj().Pkg() != nil && len(n.Obj().Pkg().Path()) >= len(core.Module) && n.Obj().Pkg().Path()[:len(core.Module)] == core.Module {
 				// a module interface: only conversions to that interface produce its values
